@@ -509,6 +509,10 @@ def explore(pid, tier, seed, ex):
     if hints["changed_lines"] and pid not in ("C17", "C18", "C19"):
         # the working tree differs from the reference source: steer sizes / counts / keys / characters by the literals of the changed lines
         hl = streams.s_hints(g, hints, tier)
+        # very long lines are costly for the exact-arithmetic model: keep the 80 shortest of those beyond 300 000 characters
+        long_ = sorted([l for l in hl if len(l) > 300000], key=len)
+        if len(long_) > 80:
+            drop = set(long_[80:]); hl = [l for l in hl if l not in drop]
         if pid == "C03":
             ra = R.impl(hl); ma = R.model(hl); ex.account(hl, ra)
             for l, a, m in zip(hl, ra, ma):
